@@ -346,7 +346,18 @@ _public_ int m_map_put(m_map_t *m, const char *key, void *value) {
     M_PARAM_ASSERT(value);
     
     /* Find a place to put our value */
-    return hashmap_put(m, m->flags & M_MAP_KEY_DUP ? mem_strdup(key) : key, value);
+    if (m->flags & M_MAP_KEY_DUP) {
+        char *dupkey = mem_strdup(key);
+        M_ALLOC_ASSERT(dupkey);
+        const size_t len = m->length;
+        int ret = hashmap_put(m, dupkey, value);
+        if (ret != 0 || len == m->length) {
+            /* Duplicated key was not stored: either put failed, or an existing entry was updated */
+            memhook._free(dupkey);
+        }
+        return ret;
+    }
+    return hashmap_put(m, key, value);
 }
 
 /*
